@@ -84,6 +84,7 @@ type HostConf struct {
 	ScriptLine   string `json:"script_line,omitempty"`    // plugin is a shell script printing this line instead of vplugin
 	Group        string `json:"group,omitempty"`          // UnixSocketConfig.Group
 	Managed      bool   `json:"managed,omitempty"`        // ClientConfig.Managed (for CleanupClients)
+	AmbientBoth  bool   `json:"ambient_both,omitempty"`   // ... and into the host's environment as well (with AmbientInCmd)
 	AmbientInCmd bool   `json:"ambient_in_cmd,omitempty"` // the cell's ambient variables are put into Cmd.Env, not into the host's environment
 	MinPort      uint   `json:"min_port,omitempty"`
 	MaxPort      uint   `json:"max_port,omitempty"`
